@@ -288,9 +288,9 @@ def lz_tie(ctx, cd):
 
 
 def wide_sequences(ctx):
-    """thorough tier: round trips of inputs whose parse contains the widest sequence the format allows (58 extra bits), 128 MiB apart"""
+    """round trips of inputs whose parse contains the widest sequence the format allows (58 extra bits), 128 MiB apart"""
     exe = core.build_harness("c01_big", ["c01_big.c"], variant="o1", extra_flags=["-w"])
-    rc, out, err = core.sh([exe, "16"], timeout=1500)
+    rc, out, err = core.sh([exe, "16" if ctx.tier == "thorough" else "4"], timeout=1500)
     n = 0
     for l in out.splitlines():
         t = l.split(" ")
@@ -339,8 +339,7 @@ def run(ctx):
     if not ctx.replay_file:
         header_tie(ctx, cd)
         lz_tie(ctx, cd)
-        if ctx.tier == "thorough":
-            wide_sequences(ctx)
+        wide_sequences(ctx)
     ctx.notes["block_histogram"] = hist
     ctx.notes["input_kinds"] = {k: sum(1 for c in cases if c["kind"] == k) for k in set(c["kind"] for c in cases)}
     ctx.notes["entries"] = {k: sum(1 for c in cases if c["entry"].split(":")[0] == k) for k in set(c["entry"].split(":")[0] for c in cases)}
